@@ -1,46 +1,81 @@
 (** C05 — property theorems (statements closed by [exact]). *)
-From Coq Require Import ZArith QArith Qround List Bool.
-From KV Require Import Base.IEEE Base.Outcome Base.Num C19.Model C06.Model C06.Dur C06.Proofs
+From Coq Require Import ZArith QArith Qround List Bool Reals.
+From Flocq Require Import Core IEEE754.BinarySingleNaN.
+From KV Require Import Base.IEEE Base.Outcome Base.Num C19.Model C06.Model C06.Dur C06.Proofs C01.Model
   C05.Model C05.Shared C05.ProofsClock C05.ProofsEvent C05.ProofsSpeed C05.ProofsShared.
 Import ListNotations.
 Local Open Scope Q_scope.
 
-(** The tick loop [while timer >= 1.0 { timer -= 1.0; ticks += 1 }] in exact arithmetic: it ends
-    after [floor timer] iterations and splits the timer exactly into whole ticks and a fraction in [0,1). *)
-Theorem tick_loop_exact :
-  forall (fuel : nat) (tk : Z) (timer : Q),
-    0 <= timer -> (Z.to_nat (Qfloor timer) < fuel)%nat -> (0 <= tk)%Z -> (tk + Qfloor timer <= u64_max)%Z ->
-    exists fr, tick_loop fuel tk timer = Ok ((tk + Qfloor timer)%Z, fr) /\
+(** The tick split of [Clock::update] (since the F7 repair: [floor], a saturating cast and one
+    subtraction instead of the loop [while timer >= 1.0 { timer -= 1.0; ticks += 1 }]) in exact
+    arithmetic: no fuel, no overflow condition, it always returns, and it splits the timer exactly
+    into [floor timer] whole ticks (saturating at u64::MAX) and a fraction in [0,1). *)
+Theorem tick_update_exact :
+  forall (tk : Z) (timer : Q),
+    0 <= timer -> (0 <= tk <= u64_max)%Z ->
+    exists fr, tick_update tk timer = (Z.min u64_max (tk + Qfloor timer), fr) /\
                fr == timer - inject_Z (Qfloor timer) /\ 0 <= fr /\ fr < 1.
-Proof. exact tick_loop_spec. Qed.
+Proof. exact tick_update_spec. Qed.
+
+(** binary64: for every finite timer up to 2^53 (where each [x - 1.0] of the old loop was exact),
+    enough fuel for the loop to finish and no overflow of the tick counter, the repaired update
+    returns EXACTLY what the old loop returned — same ticks, same float. *)
+Theorem tick_update_agrees_with_loop_b64 :
+  forall (x : f64) (fuel : nat) (tk : Z),
+    is_finite x = true -> (B2R x <= IZR (2 ^ 53))%R -> (Z.to_nat (Zfloor (B2R x)) <= fuel)%nat ->
+    (0 <= tk)%Z -> (tk + Zfloor (B2R x) <= u64_max)%Z ->
+    tick_loop_old (T := f64) fuel tk x = Ok (tick_update (T := f64) tk x).
+Proof. exact tick_update_agrees_b64. Qed.
+
+(** binary64: the repaired update is total.  EVERY timer value — finite of any size, +inf, -inf, NaN,
+    negative — gives a result; the tick count never decreases and saturates at u64::MAX; if the
+    test [timer >= 1.0] holds, the new fraction is a finite number in [0,1) (finite timer: exactly
+    [timer - floor timer] and exactly [floor timer] more ticks, also beyond 2^53; +inf: fraction 0.0,
+    ticks u64::MAX); if it fails (below 1, negative, -inf, NaN) ticks and timer stay as they are. *)
+Theorem tick_update_total_b64 :
+  forall (tk : Z) (x : f64),
+    (0 <= tk <= u64_max)%Z ->
+    exists tk' r, tick_update (T := f64) tk x = (tk', r) /\ (tk <= tk' <= u64_max)%Z /\
+      if le64 one64 x then
+        is_finite r = true /\ (0 <= B2R r < 1)%R /\
+        (is_finite x = true ->
+           B2R r = (B2R x - IZR (Zfloor (B2R x)))%R /\ tk' = Z.min u64_max (tk + Zfloor (B2R x))) /\
+        (is_finite x = false -> tk' = u64_max /\ r = B754_zero false)
+      else tk' = tk /\ r = x.
+Proof. exact tick_update_total_b64_lemma. Qed.
+
+(** ... hence [Clock::update] returns whenever the update of its speed parameter does (whose only
+    non-[Ok] outcome is C06's duration conversion): every number type, every clock, every [dt]. *)
+Theorem clock_update_total :
+  forall (T : Type) (NT : Num T) (ND : NumDur T) (powf : T -> T -> T) (c : clock T) (dt : T) (i : info T),
+    is_ok (clock_update powf c dt i) = is_ok (param_update powf (cspeed T) cspeed_interpolate (c_speed c) dt i).
+Proof. exact @clock_update_returns. Qed.
 
 (** Exact audio time.  A ticking clock with a constant speed of [r] ticks per second, after ANY
     list of updates (= any partition of audio time into callbacks and internal buffers), shows
-    exactly its old time plus [r] times the elapsed audio time; the fraction is in [0,1); the tick
-    loop terminates (the result is [Ok], not [Hang]) and no u64 overflows below 2^64 ticks. *)
+    exactly its old time plus [r] times the elapsed audio time; the fraction is in [0,1); every
+    update returns ([Ok]) and nothing saturates below 2^64 ticks. *)
 Theorem clock_exact_time :
-  forall (powf : Q -> Q -> Q) (fuel : nat) (c : clock Q) (l : list (Q * info Q)),
+  forall (powf : Q -> Q -> Q) (c : clock Q) (l : list (Q * info Q)),
     c_ticking c = true -> state_ok (c_state c) -> constant_speed (c_speed c) ->
     let r := as_tps (p_raw (c_speed c)) in
     let t := qsum (map fst l) in
     0 <= r -> Forall (fun x => 0 <= fst x) l ->
     time_of (c_state c) + r * t < inject_Z (2 ^ 64) ->
-    (Z.to_nat (Qfloor (1 + r * t)) < fuel)%nat ->
-    exists c', clock_run powf fuel c l = Ok c' /\ c_ticking c' = true /\ state_ok (c_state c') /\
+    exists c', clock_run powf c l = Ok c' /\ c_ticking c' = true /\ state_ok (c_state c') /\
                time_of (c_state c') == time_of (c_state c) + r * t.
 Proof. exact clock_exact_time_lemma. Qed.
 
 (** Partition independence: the same audio time, however it is split into callbacks and chunks,
     gives the same (ticks, fraction). *)
 Theorem clock_partition_independent :
-  forall (powf : Q -> Q -> Q) (fuel : nat) (c : clock Q) (l1 l2 : list (Q * info Q)),
+  forall (powf : Q -> Q -> Q) (c : clock Q) (l1 l2 : list (Q * info Q)),
     c_ticking c = true -> state_ok (c_state c) -> constant_speed (c_speed c) ->
     let r := as_tps (p_raw (c_speed c)) in
     0 <= r -> Forall (fun x => 0 <= fst x) l1 -> Forall (fun x => 0 <= fst x) l2 ->
     qsum (map fst l1) == qsum (map fst l2) ->
     time_of (c_state c) + r * qsum (map fst l1) < inject_Z (2 ^ 64) ->
-    (Z.to_nat (Qfloor (1 + r * qsum (map fst l1))) < fuel)%nat ->
-    exists c1 c2, clock_run powf fuel c l1 = Ok c1 /\ clock_run powf fuel c l2 = Ok c2 /\
+    exists c1 c2, clock_run powf c l1 = Ok c1 /\ clock_run powf c l2 = Ok c2 /\
                   fst (state_time (c_state c1)) = fst (state_time (c_state c2)) /\
                   snd (state_time (c_state c1)) == snd (state_time (c_state c2)).
 Proof. exact partition_independent_lemma. Qed.
@@ -48,36 +83,35 @@ Proof. exact partition_independent_lemma. Qed.
 (** Varying speed (speed changes, speed tweens, modulated speeds): the clock advances at every update
     by (the speed parameter's value at that update, as the C06 model computes it) * dt — exactly. *)
 Theorem clock_exact_time_varying :
-  forall (powf : Q -> Q -> Q) (fuel : nat) (l : list (Q * info Q)) (c : clock Q) (incs : list Q),
+  forall (powf : Q -> Q -> Q) (l : list (Q * info Q)) (c : clock Q) (incs : list Q),
     c_ticking c = true -> state_ok (c_state c) ->
     increments powf (c_speed c) l = Ok incs -> Forall (fun x => 0 <= x) incs ->
     time_of (c_state c) + qsum incs < inject_Z (2 ^ 64) ->
-    (Z.to_nat (Qfloor (1 + qsum incs)) < fuel)%nat ->
-    exists c', clock_run powf fuel c l = Ok c' /\ c_ticking c' = true /\ state_ok (c_state c') /\
+    exists c', clock_run powf c l = Ok c' /\ c_ticking c' = true /\ state_ok (c_state c') /\
                time_of (c_state c') == time_of (c_state c) + qsum incs.
 Proof. exact clock_run_exact. Qed.
 
 (** Pausing freezes the clock: no list of updates changes the state of a clock that is not ticking
     (for every number type, hence bit-for-bit in binary64: [clock_paused_frozen_any]). *)
 Theorem clock_paused_frozen :
-  forall (powf : Q -> Q -> Q) (fuel : nat) (l : list (Q * info Q)) (c c' : clock Q),
-    c_ticking c = false -> clock_run powf fuel c l = Ok c' -> c_state c' = c_state c /\ c_ticking c' = false.
+  forall (powf : Q -> Q -> Q) (l : list (Q * info Q)) (c c' : clock Q),
+    c_ticking c = false -> clock_run powf c l = Ok c' -> c_state c' = c_state c /\ c_ticking c' = false.
 Proof. exact paused_frozen_run. Qed.
 Theorem clock_paused_frozen_any :
-  forall (T : Type) (NT : Num T) (ND : NumDur T) (powf : T -> T -> T) (fuel : nat) (c c' : clock T) (dt : T) (i : info T),
-    c_ticking c = false -> clock_update powf fuel c dt i = Ok c' ->
+  forall (T : Type) (NT : Num T) (ND : NumDur T) (powf : T -> T -> T) (c c' : clock T) (dt : T) (i : info T),
+    c_ticking c = false -> clock_update powf c dt i = Ok c' ->
     c_state c' = c_state c /\ c_ticking c' = false.
 Proof. exact @paused_frozen_any. Qed.
 
 (** Stopping: the handle reads (0, 0.0) at once; after the next [on_start_processing] the clock is
     [NotStarted], not ticking, and reads (0, 0.0). *)
 Theorem clock_stop_resets :
-  forall (powf : Q -> Q -> Q) (fuel : nat) (y : sys Q) (c : nat) (s : slot Q),
+  forall (powf : Q -> Q -> Q) (y : sys Q) (c : nat) (s : slot Q),
     nth_error (y_slots y) c = Some s -> sl_life s = Live -> sl_marked s = false ->
     exists y1 y2 s2,
-      sys_step powf fuel y (OStop c) = Ok y1 /\
+      sys_step powf y (OStop c) = Ok y1 /\
       handle_view y1 c = Some (s_ticking (sl_shared s), 0%Z, 0) /\
-      sys_step powf fuel y1 OStartProcessing = Ok y2 /\
+      sys_step powf y1 OStartProcessing = Ok y2 /\
       handle_view y2 c = Some (false, 0%Z, 0) /\
       nth_error (y_slots y2) c = Some s2 /\
       c_state (sl_clock s2) = NotStarted /\ c_ticking (sl_clock s2) = false.
@@ -87,10 +121,10 @@ Proof. exact stop_resets_lemma. Qed.
     the command was read, the speed is the C06 law in the target's unit — the old speed until the
     start time counts, identically the target from the update at which elapsed >= duration. *)
 Theorem speed_change_when_due :
-  forall (powf : Q -> Q -> Q) (fuel : nat) (c c' : clock Q) (tg : cspeed Q) (tw : tween Q) (l : list (Q * info Q)),
+  forall (powf : Q -> Q -> Q) (c c' : clock Q) (tg : cspeed Q) (tw : tween Q) (l : list (Q * info Q)),
     not_delayed (tw_start tw) -> (tw_dur tw <> 0)%Z -> l <> [] ->
     let c0 := clock_on_start c {| k_speed := Some (Fixed tg, tw); k_ticking := None; k_reset := false |} in
-    clock_run powf fuel c0 l = Ok c' ->
+    clock_run powf c0 l = Ok c' ->
     let D := ns_to_secs_Q (tw_dur tw) in
     if completes (tw_start tw) D 0 l
     then p_state (c_speed c') = Idle (Fixed tg) /\ p_raw (c_speed c') = tg
@@ -110,10 +144,10 @@ Proof. exact (fun powf => set_immediate_zeroV powf (cspeed Q) cspeed_interpolate
     start time is a time of the clock ITSELF never starts — for every list of updates, whatever the
     storage holds, the tween is exactly where it was. *)
 Theorem self_reference_never_starts :
-  forall (powf : Q -> Q -> Q) (fuel : nat) (k : nat) (tk : Z) (fr : Q) (l : list (Q * list (slot Q)))
+  forall (powf : Q -> Q -> Q) (k : nat) (tk : Z) (fr : Q) (l : list (Q * list (slot Q)))
          (c c' : clock Q) (v0 tg : cspeed Q) (t : Q) (tw : tween Q),
     midV (cspeed Q) (c_speed c) v0 tg t tw -> tw_start tw = ClockT k tk fr ->
-    clock_run powf fuel c (own_updates k l) = Ok c' ->
+    clock_run powf c (own_updates k l) = Ok c' ->
     midV (cspeed Q) (c_speed c') v0 tg t tw.
 Proof. exact self_reference_lemma. Qed.
 Theorem self_reference_own_id_never_now :
@@ -129,18 +163,18 @@ Proof. exact other_id_real. Qed.
     replaced by the dummy (every number type) *)
 Theorem clock_updated_against_own_dummy :
   forall (T : Type) (NT : Num T) (ND : NumDur T) (powf : T -> T -> T)
-         (fuel : nat) (k : nat) (todo : list nat) (slots : list (slot T)) (s : slot T) (dt : T),
+         (k : nat) (todo : list nat) (slots : list (slot T)) (s : slot T) (dt : T),
     nth_error slots k = Some s -> sl_life s = Live ->
-    clocks_update_from powf fuel (k :: todo) slots dt =
-      (let! c' := clock_update powf fuel (sl_clock s) dt (info_for slots k) in
-       clocks_update_from powf fuel todo (set_nth k (with_clock s c') slots) dt).
+    clocks_update_from powf (k :: todo) slots dt =
+      (let! c' := clock_update powf (sl_clock s) dt (info_for slots k) in
+       clocks_update_from powf todo (set_nth k (with_clock s c') slots) dt).
 Proof. exact @for_each_own_dummy. Qed.
 (** the witness replayed on the implementation: own time => the change never happens (8 = 2 x 4 ticks),
     other clock showing the same time => it does (29 ticks) *)
 Theorem self_reference_refuted :
   exists y_own y_other,
-    sys_run (fun _ _ => 0) 100 (sys_new 512 64) (f17_ops 0) = Ok y_own /\
-    sys_run (fun _ _ => 0) 100 (sys_new 512 64) (f17_ops 1) = Ok y_other /\
+    sys_run (fun _ _ => 0) (sys_new 512 64) (f17_ops 0) = Ok y_own /\
+    sys_run (fun _ _ => 0) (sys_new 512 64) (f17_ops 1) = Ok y_other /\
     handle_view y_own 0 = Some (true, 8%Z, 0) /\ handle_view y_own 1 = Some (true, 8%Z, 0) /\
     handle_view y_other 0 = Some (true, 29%Z, 0).
 Proof. exact self_reference_witness. Qed.
@@ -187,10 +221,10 @@ Proof. exact paused_not_due. Qed.
 (** the renderer's order: within a chunk the clocks advance (by the whole chunk) first; everything
     that waits is then evaluated against the advanced clocks *)
 Theorem event_sees_clocks_after_advance :
-  forall (powf : Q -> Q -> Q) (fuel : nat) (y y' : sys Q) (frames : Z),
-    sys_chunk powf fuel y frames = Ok y' ->
+  forall (powf : Q -> Q -> Q) (y y' : sys Q) (frames : Z),
+    sys_chunk powf y frames = Ok y' ->
     let d := nmul (y_dt y) (nofZ frames) in
-    clocks_update powf fuel (y_slots y) d = Ok (y_slots y') /\
+    clocks_update powf (y_slots y) d = Ok (y_slots y') /\
     waiters_update (y_waiters y) d (info_of (y_slots y')) (y_frames y) = Ok (y_waiters y') /\
     y_frames y' = (y_frames y + frames)%Z.
 Proof. exact chunk_order. Qed.
@@ -201,17 +235,30 @@ Theorem event_cancelled_when_clock_dropped :
     ~ resolves (info_of (map slot_on_start slots)) c.
 Proof. exact dropped_clock_gone. Qed.
 
-(** F7 (binary64).  If the first increment [x] of a fresh ticking clock satisfies [x >= 1] and
-    [x - 1 = x], [Clock::update] does not return, whatever the fuel ... *)
+(** F7, REGRESSION (binary64).  If the first increment [x] of a fresh ticking clock satisfies
+    [x >= 1] and [x - 1 = x], [Clock::update] as it was (the loop) does not return, whatever the
+    fuel; [Clock::update] as repaired returns a started, ticking clock whose tick count is within
+    u64 and whose fraction is a finite number in [0,1) ... *)
 Theorem tick_loop_diverges :
   forall (powf : f64 -> f64 -> f64) (sp : cspeed f64) (dt : f64) (i : info f64),
-    stuck_increment sp dt -> forall fuel, is_ok (clock_update powf fuel (fresh_ticking sp) dt i) = false.
-Proof. exact stuck_clock_never_returns. Qed.
-(** ... and [SecondsPerTick(0.0)] and [TicksPerSecond(1e300)] are such speeds (16 frames at 512 Hz). *)
+    stuck_increment sp dt ->
+    (forall fuel, is_ok (clock_update_old powf fuel (fresh_ticking sp) dt i) = false) /\
+    exists c' tk fr, clock_update powf (fresh_ticking sp) dt i = Ok c' /\ c_ticking c' = true /\
+                     c_state c' = Started tk fr /\ (0 <= tk <= u64_max)%Z /\
+                     is_finite fr = true /\ (0 <= B2R fr < 1)%R.
+Proof. exact stuck_clock_regression. Qed.
+(** ... and [SecondsPerTick(0.0)] and [TicksPerSecond(1e300)] are such speeds (16 frames at 512 Hz):
+    the old update exhausts its fuel, the repaired one shows (u64::MAX, 0.0); [TicksPerSecond(1e9)]
+    over 16 frames at 1 Hz cost the old loop 1.6e10 iterations, the repaired update shows
+    (16000000000, 0.0).  These are the harness's regression cases. *)
 Theorem tick_loop_diverges_refuted :
   stuck_increment spt_zero dt_16_at_512 /\ stuck_increment tps_1e300 dt_16_at_512 /\
-  clock_update (fun _ _ => f64_of_bits 0) 200 (fresh_ticking spt_zero) dt_16_at_512 no_info = Hang /\
-  clock_update (fun _ _ => f64_of_bits 0) 200 (fresh_ticking tps_1e300) dt_16_at_512 no_info = Hang.
+  clock_update_old (fun _ _ => f64_of_bits 0) 200 (fresh_ticking spt_zero) dt_16_at_512 no_info = Hang /\
+  clock_update_old (fun _ _ => f64_of_bits 0) 200 (fresh_ticking tps_1e300) dt_16_at_512 no_info = Hang /\
+  clock_update_old (fun _ _ => f64_of_bits 0) 200 (fresh_ticking tps_1e9) dt_16_at_1 no_info = Hang /\
+  shown (clock_update (fun _ _ => f64_of_bits 0) (fresh_ticking spt_zero) dt_16_at_512 no_info) = Some (u64_max, 0%Z) /\
+  shown (clock_update (fun _ _ => f64_of_bits 0) (fresh_ticking tps_1e300) dt_16_at_512 no_info) = Some (u64_max, 0%Z) /\
+  shown (clock_update (fun _ _ => f64_of_bits 0) (fresh_ticking tps_1e9) dt_16_at_1 no_info) = Some (16000000000%Z, 0%Z).
 Proof. exact stuck_witnesses. Qed.
 
 (** The handle's two-word read under ALL schedules of the audio thread against the handle's thread
